@@ -216,3 +216,9 @@ def call_lib_eval(fn, *a, **k):
         return call_lib(fn, *a, **k)
     finally:
         fn.train(was)
+
+
+def channel_sliced(x):
+    """the same values as a view whose batch and channel axes cannot be merged (the first C channels of a
+    tensor with C+1 channels): what `rgba[:, :3]` is to a caller"""
+    return torch.cat([x, x[:, :1]], dim=1)[:, :x.shape[1]]
